@@ -344,6 +344,7 @@ func chainMode(r *sim.Rng, nBlocks int, cw *sim.CaseWriter) {
 		}
 		g.Accounts = append(g.Accounts, &fsm.Account{Address: eth.PublicKey().Address().Bytes(), Amount: 5_000_000_000})
 		g.Accounts = append(g.Accounts, &fsm.Account{Address: edKey.PublicKey().Address().Bytes(), Amount: 5_000_000_000})
+		g.Accounts = append(g.Accounts, &fsm.Account{Address: msAddress(), Amount: 5_000_000_000})
 		n, e := sim.NewFNode(g.State(), func(c *lib.Config) { c.ChainId = chainID; c.P2PConfig.NetworkID = netID })
 		if e != nil {
 			panic(e)
@@ -403,7 +404,10 @@ func chainMode(r *sim.Rng, nBlocks int, cw *sim.CaseWriter) {
 		// a fresh transfer (BLS key or the ETH key), included
 		var tx []byte
 		to := crypto.NewAddress(sim.BLSKey(5).Addr)
-		if r.Chance(35) {
+		if r.Chance(20) {
+			// approved by two of the three members of the multi-signature account
+			tx = msSend(to.Bytes(), 1000+uint64(b), h, fmt.Sprintf("ms%d", b))
+		} else if r.Chance(35) {
 			tx = sim.TxBytes(fsm.NewSendTransaction(eth, to, 1000+uint64(b), 1, 1, 10000, h, fmt.Sprintf("m%d", b)))
 		} else {
 			k := sim.BLSKey(r.Intn(5))
@@ -417,6 +421,15 @@ func chainMode(r *sim.Rng, nBlocks int, cw *sim.CaseWriter) {
 			continue
 		}
 		src := pool[r.Intn(len(pool))]
+		// an included multi-signature transfer is offered again under another encoding of its (unsigned) nested key
+		for _, p := range pool {
+			if v, how := reencodeNestedKey(r, p); v != nil && r.Chance(50) {
+				if offer(n, executed, v, how, 1) {
+					executed = append(executed, v)
+				}
+				break
+			}
+		}
 		switch r.Intn(7) {
 		case 6:
 			// a third party re-stamps the nonce of an included (native, non-RLP) transaction: canonical encoding, new hash, the
